@@ -39,7 +39,8 @@ RULE = ("lludp hook: all pairs (quick) / triples (thorough) of 16 behaviours {re
         "(thorough) on a message. distinct_nontrivial = distinct (hook point, behaviour tuple, direction, reliability) scenarios"
         ". Round-5 additions: an addon loaded from a script file that hot-reloads a helper module, next to a healthy addon object; while traffic flows the files go bad (13 faults: dependency deleted / its directory replaced by a file / symlink loop / syntax error / raises on import; script deleted / directory gone / syntax error / raises on import / hook now raises / unload raises / init raises) and then change again (thorough: all 144 ordered pairs incl. the author repairing the script); the reload check runs before every message; every message must reach the healthy addon, the logger and the wire exactly once"
         ". Rounds 6-7: the script addon schedules a task that outlives it; after the faults, the avatar's arrival message (which kills region-scoped tasks) must still be delivered; datagrams whose body is cut short pass hooks that look inside and fail (deferred parsing): next addon still called, datagram forwarded once as it came"
-        ". Round 8: several coroutine subscribers next to plain ones on one message - each called once with its own arguments")
+        ". Round 8: several coroutine subscribers next to plain ones on one message - each called once with its own arguments"
+        ". Round 9: 13 kinds of messages the proxy itself reads or acts on (UseCircuitCode repeated on a live circuit, arrival, handshake, pings, acks, ...) under 6 hook behaviours each")
 ASSUMPTIONS = [
     "claims = truthy return, take(), explicit drop, the proxy's command channel; everything else must be forwarded exactly once",
     "a deep copy an addon sends itself is a different message (marked in its payload) and is not counted",
@@ -64,7 +65,7 @@ class CustomBoom(Exception):
     pass
 
 
-BEHAVIOURS = ["none", "false", "zero", "true", "object", "raise_value", "raise_key", "raise_runtime", "raise_custom",
+BEHAVIOURS = ["none", "false", "zero", "true", "object", "raise_value", "raise_key", "raise_runtime", "raise_custom", "raise_cancelled",
               "take", "take_send_copy", "take_drop_orig", "drop", "send_orig", "send_orig_twice", "send_then_raise",
               "mutate", "send_marked_copy"]
 QUICK_BEHAVIOURS = BEHAVIOURS
@@ -111,6 +112,10 @@ class ScriptedAddon:
             raise RuntimeError("scripted")
         if b == "raise_custom":
             raise CustomBoom("scripted")
+        if b == "raise_cancelled":
+            # what asking a cancelled future for its result raises: not an Exception subclass
+            import asyncio
+            raise asyncio.CancelledError("scripted")
         if b == "take":
             message.take()
             return None
